@@ -161,6 +161,24 @@ theorem frame_reprKvs : ∀ kvs : List (Str × Val), reprKvs (toN0K kvs) = reprK
     simp only [reprKvs, frame_reprVal x, ih]
 end
 
+mutual
+/-- the JSON text (the key of a non-record item) does not show the class tags -/
+theorem frame_jsonVal : ∀ v : Val, jsonVal (toN0 v) = jsonVal v
+  | .list c xs => by simp only [toN0, jsonVal, frame_jsonList xs]
+  | .dict c kvs => by simp only [toN0, jsonVal, frame_jsonKvs kvs]
+  | .none => rfl
+  | .bool _ => rfl
+  | .int _ => rfl
+  | .flt _ => rfl
+  | .str _ => rfl
+theorem frame_jsonList : ∀ xs : List Val, jsonList (toN0L xs) = jsonList xs
+  | [] => rfl
+  | x :: xs => by simp only [toN0L, jsonList, frame_jsonVal x, frame_jsonList xs]
+theorem frame_jsonKvs : ∀ kvs : List (Str × Val), jsonKvs (toN0K kvs) = jsonKvs kvs
+  | [] => rfl
+  | (k, x) :: rest => by simp only [toN0K, jsonKvs, frame_jsonVal x, frame_jsonKvs rest]
+end
+
 theorem frame_pyStr (v : Val) : pyStr (toN0 v) = pyStr v := by
   cases v with
   | str s => rfl
@@ -250,10 +268,12 @@ theorem frame_recordKey {cfg : Cfg} (hl : LeafTransform cfg) (p : Path) (kvs : L
           | dict c kvs' => rfl
 
 theorem frame_keyOf {cfg : Cfg} (hl : LeafTransform cfg) (p : Path) (x : Val) : keyOf cfg p (toN0 x) = keyOf cfg p x := by
+  have hk : ∀ v : Val, jsonVal (transformAt cfg p (toN0 v)) = jsonVal (transformAt cfg p v) := fun v => by
+    rw [frame_commute (tr_leafFn_transformAt hl p) v, frame_jsonVal]
   cases x with
   | dict c kvs => simp only [toN0, keyOf, frame_recordKey hl]
   | list c xs =>
-    have := frame_pyStr (.list c xs)
+    have := hk (.list c xs)
     simp only [toN0] at this ⊢
     simp only [keyOf, this]
   | none => rfl
